@@ -116,8 +116,12 @@ def detour(
       raise TypeError(
           f'Detour destination {dest!r} is not a class or a function.')
 
+  # NOTE: the scope is entered outside the `try` block: if entering fails (e.g.
+  # the `__new__` of an immutable type cannot be patched), there is no scope of
+  # ours to leave, and leaving would pop the enclosing detour scope.
+  resolved_mappings = _global_detour_context.enter_scope(mappings)
   try:
-    yield _global_detour_context.enter_scope(mappings)
+    yield resolved_mappings
   finally:
     _global_detour_context.leave_scope()
 
@@ -235,8 +239,9 @@ class _DetourContext:
       # detour may save the patched `__new__` as the original one.
       with self._lock:
         if src not in self._original_new:
-          self._original_new[src] = src.__new__
+          original_new = src.__new__
           setattr(src, '__new__', _maybe_detoured_new)
+          self._original_new[src] = original_new
       cur_mappings[src] = dest
     self._detour_stack.append(cur_mappings)
     return cur_mappings
